@@ -1,4 +1,5 @@
 import AbraProofs.Lemmas.Sort
+import AbraProofs.Lemmas.SortLoops
 /-!
 # C25 — sorting yields a sorted permutation, stably for sort_by
 
@@ -138,6 +139,44 @@ theorem C25_merge_left_wins (le : α → α → Bool) (a b : α) (l r : List α)
     merge le (a :: l) (b :: r) = a :: merge le l (b :: r) := by
   simp [merge, h]
 
+/-! ## from the array and its indices to the list model
+
+`Abra.Lib.sortByA` (`AbraModel/Lib/SortLoops.lean`) is `sort_by` once more, this time on the whole array with the
+source's variables — `i`, `end`, `size`, `left`, `mid`, `right`, the scratch array `temp`, `i_curr`, `j`, `k`, the
+in-place writes `self[k] = …` and `self[j+1] = self[j]` — and it is what the model driver runs against the real VM.
+The theorems below carry everything proved about `sortBy` over to it. -/
+
+/-- `merge_by(left, mid, right)` with its scratch copy and in-place writes puts `merge` of the two runs into
+    `[left, right]` and touches nothing else (no write ever lands on an unread element of the right run). -/
+theorem C25_merge_by_in_place (le : α → α → Bool) (arr : List α) (left mid right : Nat)
+    (h1 : left ≤ mid) (h2 : mid < right) (h3 : right < arr.length) :
+    mergeByA le arr left mid right =
+      arr.take left ++ merge le ((arr.drop left).take (mid - left + 1)) ((arr.drop (mid + 1)).take (right - mid))
+        ++ arr.drop (right + 1) :=
+  mergeByA_eq le arr left mid right h1 h2 h3
+
+/-- `insertion_sort_by(left, right)` with its shifting loop is `insertRun` on the segment, nothing else touched. -/
+theorem C25_insertion_sort_in_place (le : α → α → Bool) (arr : List α) (left right : Nat)
+    (h1 : left ≤ right) (h2 : right < arr.length) :
+    insertionSortByA le arr left right =
+      arr.take left ++ insertRun le ((arr.drop left).take (right - left + 1)) ++ arr.drop (right + 1) :=
+  insertionSortByA_eq le arr left right h1 h2
+
+/-- The index-level `sort_by` computes exactly the list-level `sortBy`, for every comparator. -/
+theorem C25_sort_by_index_level (le : α → α → Bool) (arr : List α) : sortByA le arr = sortBy le arr :=
+  sortByA_eq le arr
+
+/-- Hence the index-level `sort_by`: a permutation for any comparator; sorted and stable for a total,
+    transitive one. -/
+theorem C25_sort_array_level (le : α → α → Bool) (arr : List α) :
+    (sortByA le arr).Perm arr ∧
+    ((∀ a b, le a b = true ∨ le b a = true) → (∀ a b c, le a b = true → le b c = true → le a c = true) →
+      (sortByA le arr).Pairwise (fun a b => le a b = true) ∧
+      ∀ x, (sortByA le arr).filter (fun y => le x y && le y x) = arr.filter (fun y => le x y && le y x)) := by
+  rw [C25_sort_by_index_level]
+  exact ⟨C25_sort_perm le arr, fun total trans =>
+    ⟨C25_sort_sorted le total trans arr, fun x => C25_sort_stable le total trans arr x⟩⟩
+
 /-! ## non-vacuity and unlawful comparators -/
 
 -- the hypotheses of the lawful theorems are satisfiable (integers with `≤`), and the theorem applies
@@ -155,5 +194,7 @@ example : sortBy (fun a b : Int × Int => decide (a.1 ≤ b.1)) [(3, 0), (1, 1),
 example : sortBy (fun a b : Int × Int => decide (a.1 < b.1)) [(1, 0), (1, 1)] = [(1, 1), (1, 0)] := by
   simp [sortBy, runs, mergeLoop, insertRun, insRev]
 example : (0 : Nat) < 32 ∧ ([1] : List Int) ≠ [] := by decide
+-- index bounds of the in-place lemmas are satisfiable
+example : (0 : Nat) ≤ 0 ∧ (0 : Nat) < 1 ∧ 1 < ([5, 3] : List Int).length := by decide
 
 end Abra.Lib
